@@ -378,6 +378,24 @@ type World struct {
 	reqs  map[int]*reqState
 	tag   string // identity of this backend ("local", "b1", ...)
 	calls int
+	// serverMD is one long-lived piece of metadata that every handler of this
+	// run passes to SetHeader before its own (as an interceptor adding
+	// constant server headers would): it belongs to the handlers, the library
+	// may read it and must never keep or change it.
+	serverMD metadata.MD // made when the World is (no lazy initialisation: that would synchronise the handlers)
+}
+
+func newServerMD() metadata.MD { return metadata.Pairs("x-sim-server", "sim") }
+
+func (w *World) sharedMD() metadata.MD { return w.serverMD }
+
+// sharedMDIntact: nobody wrote to the handlers' shared metadata.
+func (w *World) sharedMDIntact() bool {
+	if w.serverMD == nil {
+		return true
+	}
+	v := w.serverMD["x-sim-server"]
+	return len(w.serverMD) == 1 && len(v) == 1 && v[0] == "sim"
 }
 
 func reqIDFromContext(ctx context.Context) int {
@@ -499,6 +517,7 @@ func (w *World) unary(ctx context.Context, full string, md protoreflect.MethodDe
 			l.CtxWaited, l.CtxDoneAt, l.CtxDoneErr = true, w.sim.Now(), ctx.Err()
 			l.CtxObserved = append(l.CtxObserved, "done:"+ctx.Err().Error())
 		case "header":
+			grpc.SetHeader(ctx, w.sharedMD())
 			grpc.SetHeader(ctx, metadata.Pairs("x-sim-hdr", strconv.Itoa(rs.spec.ID)))
 		case "trailer":
 			grpc.SetTrailer(ctx, metadata.Pairs("x-sim-trl", strconv.Itoa(rs.spec.ID)))
@@ -623,6 +642,9 @@ func (w *World) stream(full string, md protoreflect.MethodDescriptor, stream grp
 			}
 		case "header":
 			if yield("h.header") {
+				if err := stream.SetHeader(w.sharedMD()); err != nil {
+					l.HelperErr = err
+				}
 				if err := stream.SetHeader(metadata.Pairs("x-sim-hdr", strconv.Itoa(rs.spec.ID))); err != nil {
 					l.HelperErr = err
 				}
